@@ -107,8 +107,11 @@ __start__:
         if (c == ctx.GSTUFF_START)
         {
             // рестарт отрабатывает если стартовый байт
-            // отличен от стопового.
-            if ((ctx.GSTUFF_START != ctx.GSTUFF_STOP)) {
+            // отличен от стопового. Если они совпадают, то разделитель
+            // при пустой строке не может закрывать пакет (в теле пакета
+            // есть как минимум crc) - это стартовый байт следующего
+            // пакета; иначе приёмник, сбившийся с фазы, не восстановится.
+            if ((ctx.GSTUFF_START != ctx.GSTUFF_STOP) || sline_empty(&line)) {
                 //Приняли стартовый символ. Реинициализация.
                 reset();
                 goto __force_restart__;
